@@ -59,7 +59,9 @@ type tok struct {
 	lid        int
 	acquired   bool
 	relStarted bool
-	trDepth    int
+	giving     int // TemporarilyRelease calls on this holder that gave the token up and have not returned to the client yet
+	batchDepth int // batch.Invoke fan-outs on this holder's context in progress (their waiters' TemporarilyRelease calls are not wrapped)
+	ptr        interface{}
 	rel        func()
 }
 
@@ -73,18 +75,20 @@ type mth struct { // mirror of one model thread
 }
 
 type gstate struct {
-	id        int
-	g         *sched.G
-	stack     []*mth
-	acqCtx    context.Context
-	acqCancl  context.CancelFunc
-	acqRes    int  // result of the last Acquire: 0 none yet, 1 acquired, 2 cancelled, 3 no limiter
-	acqLater  bool // the seed may cancel this Acquire while it waits
-	blkSeen   bool
-	lastPoint string
-	acqLid    int  // limiter of the Acquire in progress
-	acqTag    int  // harness-side name of the limiter the context of that Acquire resolves to
-	fPanic    bool // the function passed to TemporarilyRelease is unwinding by panic
+	id         int
+	g          *sched.G
+	stack      []*mth
+	acqCtx     context.Context
+	acqCancl   context.CancelFunc
+	acqRes     int  // result of the last Acquire: 0 none yet, 1 acquired, 2 cancelled, 3 no limiter
+	acqLater   bool // the seed may cancel this Acquire while it waits
+	blkSeen    bool
+	lastPoint  string
+	acqLid     int  // limiter of the Acquire in progress
+	acqTag     int  // harness-side name of the limiter the context of that Acquire resolves to
+	fPanic     bool // the function passed to TemporarilyRelease is unwinding by panic
+	lastHolder interface{}
+	gives      []*tok
 }
 
 type scope struct {
@@ -123,6 +127,7 @@ type env struct {
 	bf       *batch.Func
 	nBatch   int32
 	nWith    int
+	tokByPtr map[interface{}]*tok
 	stats    map[string]int
 	points   map[string]bool
 	mirrorOK bool
@@ -157,12 +162,15 @@ func (e *env) unregister() {
 	e.mu.Unlock()
 }
 
-// oracle counter: holders returned by Acquire whose release function has not been called and on which
-// no TemporarilyRelease call is in progress.  Called with e.mu held.
+// oracle counter: holders returned by Acquire whose release function has not been called and whose token is not
+// given up: no TemporarilyRelease call that gave the token up (seen at the point before its receive) is still
+// on its way back to its caller.  A goroutine that has returned from the TemporarilyRelease in which the token
+// was given up is inside its critical section again, whatever siblings sharing its context are doing.
+// Called with e.mu held.
 func (e *env) checkCount(where string) {
 	ns := make([]int, len(e.lims))
 	for _, t := range e.toks {
-		if t.acquired && !t.relStarted && t.trDepth == 0 && t.lid < len(ns) {
+		if t.acquired && !t.relStarted && t.giving == 0 && t.batchDepth == 0 && t.lid < len(ns) {
 			ns[t.lid]++
 		}
 	}
@@ -294,7 +302,7 @@ func (e *env) batchOp(sc scope, n int) {
 	t := sc.tok
 	e.mu.Lock()
 	if t != nil {
-		t.trDepth++
+		t.batchDepth++
 	}
 	e.stats["batch-invoke-on-shared-context"]++
 	e.mu.Unlock()
@@ -314,6 +322,9 @@ func (e *env) batchOp(sc scope, n int) {
 					e.fail("panic-in-limiter", fmt.Sprint(p))
 					e.mu.Unlock()
 				}
+				e.mu.Lock()
+				e.popGives(gs, 0)
+				e.mu.Unlock()
 			}()
 			v, err := e.bf.Invoke(sc.ctx, arg)
 			if err == context.Canceled {
@@ -329,10 +340,32 @@ func (e *env) batchOp(sc scope, n int) {
 	wg.Wait()
 	e.mu.Lock()
 	if t != nil {
-		t.trDepth--
+		t.batchDepth--
 		e.checkCount("after batch.Invoke calls on the shared context returned")
 	}
 	e.mu.Unlock()
+}
+
+// observe: what the oracle learns from the hook points (both modes).  e.mu held.
+func (e *env) observe(gs *gstate, point string, args []interface{}) {
+	switch point {
+	case "limiter.acquire.acquired":
+		gs.lastHolder = args[0]
+	case "limiter.block.recv":
+		if t := e.tokByPtr[args[0]]; t != nil {
+			t.giving++
+			gs.gives = append(gs.gives, t)
+		}
+	}
+}
+
+// popGives: the TemporarilyRelease calls of gs that gave a token up, beyond mark, have returned.  e.mu held.
+func (e *env) popGives(gs *gstate, mark int) {
+	for len(gs.gives) > mark {
+		t := gs.gives[len(gs.gives)-1]
+		gs.gives = gs.gives[:len(gs.gives)-1]
+		t.giving--
+	}
 }
 
 func maxi(a, b int) int {
@@ -377,6 +410,11 @@ func (e *env) acquire(gs *gstate, sc scope, op Op) {
 	if res == 1 {
 		e.mu.Lock()
 		t := &tok{id: len(e.toks), lid: lid, acquired: true, rel: rel}
+		if gs.acqRes == 1 && gs.lastHolder != nil {
+			t.ptr = gs.lastHolder
+			e.tokByPtr[t.ptr] = t
+			gs.lastHolder = nil
+		}
 		e.toks = append(e.toks, t)
 		e.checkCount("after Acquire returned")
 		e.mu.Unlock()
@@ -402,12 +440,7 @@ func (e *env) release(sc scope) {
 type boomT struct{}
 
 func (e *env) tempRelease(gs *gstate, sc scope, body []Op, panics bool) {
-	t := sc.tok
-	if t != nil {
-		e.mu.Lock()
-		t.trDepth++
-		e.mu.Unlock()
-	}
+	mark := len(gs.gives)
 	depth := len(gs.stack)
 	gs.blkSeen = false
 	func() {
@@ -452,12 +485,10 @@ func (e *env) tempRelease(gs *gstate, sc scope, body []Op, panics bool) {
 		}
 	}
 	gs.fPanic = false
-	if t != nil {
-		e.mu.Lock()
-		t.trDepth--
-		e.checkCount("after TemporarilyRelease returned")
-		e.mu.Unlock()
-	}
+	e.mu.Lock()
+	e.popGives(gs, mark)
+	e.checkCount("after TemporarilyRelease returned")
+	e.mu.Unlock()
 }
 
 // ---- model mirror: turns hook arrivals into labels of Limiter/Model.v (ctl mode only) ----
@@ -496,6 +527,9 @@ func (e *env) hookCtl(point string, args ...interface{}) {
 		return
 	}
 	e.points[point] = true
+	e.mu.Lock()
+	e.observe(gs, point, args)
+	e.mu.Unlock()
 	length := -1
 	if len(args) >= 2 {
 		if n, ok := args[1].(int); ok {
@@ -821,6 +855,7 @@ func (e *env) runCtl() bool {
 func (e *env) hookFree(point string, args ...interface{}) {
 	if gs := e.cur(); gs != nil {
 		e.mu.Lock()
+		e.observe(gs, point, args)
 		switch point {
 		case "limiter.acquire.select":
 			capacity, _ := args[2].(int)
@@ -940,7 +975,7 @@ func intList(xs []int) string {
 }
 
 func runCase(c *Case, fixed bool) *result {
-	e := &env{c: c, fixed: fixed, gs: map[int64]*gstate{}, hids: map[interface{}][2]int{}, stats: map[string]int{},
+	e := &env{c: c, fixed: fixed, gs: map[int64]*gstate{}, hids: map[interface{}][2]int{}, tokByPtr: map[interface{}]*tok{}, stats: map[string]int{},
 		points: map[string]bool{}, mirrorOK: true}
 	e.base = batch.WithBatching(concurrencylimiter.With(context.Background(), c.Limit))
 	e.nolim = batch.WithBatching(context.Background())
@@ -1172,6 +1207,37 @@ func genWitness(r *vh.Rng) *Case {
 	return c
 }
 
+// shared holder: the owner and goroutines started with its context are inside TemporarilyRelease at the same time,
+// come back in different orders and keep working, while a third party wants the token
+func genSharedTR(r *vh.Rng) *Case {
+	L := 1 + r.Intn(2)
+	c := &Case{Limit: L, Mode: "ctl", SchedSeed: r.U64() >> 1, Origin: "shared-holder-tr"}
+	works := func(n int) []Op {
+		var o []Op
+		for i := 0; i < n; i++ {
+			o = append(o, Op{K: "work"})
+		}
+		return o
+	}
+	var body []Op
+	for k := 1 + r.Intn(2); k > 0; k-- {
+		body = append(body, Op{K: "go", Body: append([]Op{{K: "tr", Body: works(1 + r.Intn(3))}}, works(r.Intn(2))...)})
+	}
+	body = append(body, Op{K: "tr", Body: works(1 + r.Intn(2))})
+	body = append(body, works(2+r.Intn(2))...)
+	if r.Chance(30) {
+		body = append(body, Op{K: "tr", Body: works(1)}, Op{K: "work"})
+	}
+	c.Progs = append(c.Progs, []Op{{K: "acq", Body: body}})
+	for k := L + r.Intn(2); k > 0; k-- {
+		c.Progs = append(c.Progs, []Op{{K: "acq", Body: works(1 + r.Intn(2))}})
+	}
+	if r.Chance(25) {
+		c.Mode, c.Perturb = "free", 20+r.Intn(40)
+	}
+	return c
+}
+
 // the same witness under the real scheduler, forced by holds instead of picks
 func genWitnessFree(r *vh.Rng) *Case {
 	L := 1 + r.Intn(3)
@@ -1333,6 +1399,8 @@ func main() {
 				cases = append(cases, genWitness(cr))
 			case k < 10:
 				cases = append(cases, genWitnessFree(cr))
+			case k < 18:
+				cases = append(cases, genSharedTR(cr))
 			default:
 				cases = append(cases, genCase(cr))
 			}
